@@ -183,6 +183,25 @@ func (w *World) observeLookups(n *Node, st *State, seed uint64) (out []obs) {
 	if !probe(zeroH, "zero") || !probe(fresh, "fresh") {
 		return
 	}
+	// never-added hashes that share a long prefix or suffix with a tracked live leaf
+	for k := 0; k < 3 && len(tracked) > 0; k++ {
+		h := tracked[r.Intn(len(tracked))]
+		nm := h
+		switch k {
+		case 0:
+			nm[31] ^= 0x80 // same first 31 bytes
+		case 1:
+			nm[12+r.Intn(19)] ^= byte(1 + r.Intn(255)) // same first 12 bytes
+		case 2:
+			nm[r.Intn(4)] ^= byte(1 + r.Intn(255)) // same tail
+		}
+		if _, live := L.LeafAt[nm]; live {
+			continue
+		}
+		if !probe(nm, "near-miss") {
+			return
+		}
+	}
 	// leaves that exist only on other branches / in undone blocks: never added in this state
 	if len(w.blocks) > 1 {
 		inState := make(map[H]bool, len(st.Leaves))
